@@ -42,14 +42,39 @@ def run_both(spec, cfg, res: CaseResult):
         res.rejected = "reference trajectory not finite/benign"
         return
     out = {}
-    for vec in (False, True):
+    # reuse: both compilations are made on ONE CircuitTemplate instance, one after the other (what a user who compares
+    # the two settings does); otherwise every compilation gets templates of its own
+    reuse = cfg.get("reuse")
+    order = (True, False) if reuse == "vec_first" else (False, True)
+    circuit = None
+    if reuse:
+        from .. import isolate
+        from ..model import build_circuit
+        isolate.reset()
+        circuit = build_circuit(spec)
+        kw["in_place"] = bool(cfg.get("in_place"))
+    for vec in order:
         try:
-            df = run_circuit(spec, T, dt, dict(outputs), solver="euler", vectorize=vec, **kw)
+            df = run_circuit(spec, T, dt, dict(outputs), solver="euler", vectorize=vec, circuit=circuit, **kw)
         except HarnessError:
             raise
         except Exception as e:
-            if not vec:
+            if not vec and not (reuse == "vec_first"):
                 res.rejected = f"novec-raises:{type(e).__name__}"
+                return
+            if not vec:
+                # second compilation on the same instance: only a failure that a fresh instance does not show counts
+                try:
+                    run_circuit(spec, T, dt, dict(outputs), solver="euler", vectorize=False,
+                                **{k: v for k, v in kw.items() if k != "in_place"})
+                except HarnessError:
+                    raise
+                except Exception:
+                    res.rejected = f"novec-raises:{type(e).__name__}"
+                    return
+                res.violate(exc_bucket("second-compilation-raises", e),
+                            f"run(vectorize=False) after run(vectorize=True) on the same template raised although a fresh "
+                            f"template works: {short_exc(e)}")
                 return
             res.violate(exc_bucket("vectorized-run-raises", e),
                         f"run(vectorize=True) raised although vectorize=False works: {short_exc(e)}")
@@ -86,7 +111,7 @@ class TrajArm(Arm):
     budget = {"quick": 1200, "thorough": 12000}
     min_per_shard = 12
     required_labels = ("shared_node_template", "self_connection", "fan_in", "parallel_edges", "sparseness=0",
-                       "sparseness=1", "merged>=4")
+                       "sparseness=1", "merged>=4", "same_instance:vec_first:in_place", "same_instance:novec_first")
 
     def strategy(self, ctx):
         @st.composite
@@ -96,7 +121,9 @@ class TrajArm(Arm):
                                         "max_in": 2}))
             cfg = {"vectorize": True, "dt": draw(st.sampled_from([0.01, 0.02, 0.005])),
                    "steps": draw(st.integers(12, 25)),
-                   "matrix_sparseness": draw(st.sampled_from([None, None, 0.0, 0.5, 1.0]))}
+                   "matrix_sparseness": draw(st.sampled_from([None, None, 0.0, 0.5, 1.0])),
+                   "reuse": draw(st.sampled_from([None, None, None, "vec_first", "novec_first"])),
+                   "in_place": draw(st.booleans())}
             return {"spec": spec, "cfg": cfg}
         from ..finding_predicates import repair_case
         return case().map(lambda c: repair_case(c, ctx))
@@ -120,6 +147,8 @@ class TrajArm(Arm):
             f.add("merged>=4")
         ms = case["cfg"].get("matrix_sparseness")
         f.add("sparseness=" + ("default" if ms is None else str(int(ms)) if ms in (0.0, 1.0) else str(ms)))
+        if case["cfg"].get("reuse"):
+            f.add("same_instance:" + case["cfg"]["reuse"] + (":in_place" if case["cfg"].get("in_place") else ""))
         res.labels = sorted(f)
         res.labels += ["repaired:" + r for r in case.get("_repaired", [])]
         res.nontrivial = mx >= 2 and bool(spec.get("edges"))
@@ -181,6 +210,75 @@ class IndexedEdgesArm(TrajArm):
         if case.get("shape") == "none":
             res.rejected = "node type without input or state variable"
         res.labels = sorted(set(res.labels) | {case.get("shape", "?")})
+        return res
+
+
+class CrossTypeArm(TrajArm):
+    """projections between two node types through the index-based edge path: a source type with 1-3 nodes and a target
+    type with 2-12 nodes, every target node receives at most one edge of the projection (pairwise distinct targets, drawn
+    order, heterogeneous weights); with a single source node this is the scalar-source fan-out (also the shape of a 1-D
+    extrinsic input broadcast to many nodes); optionally a back projection (fan-in onto the few source-type nodes).
+    matrix_sparseness 1.0 forces the indexed realisation for any size, the default does so from ten targets on."""
+    name = "cross_type"
+    budget = {"quick": 200, "thorough": 3000}
+    min_per_shard = 8
+    required_labels = ("single_source_fan_out", "targets>=10", "back_projection")
+
+    def strategy(self, ctx):
+        @st.composite
+        def case(draw):
+            base = draw(gen.model_spec({"leak": True, "min_types": 2, "max_types": 2, "max_ops": 2, "max_nodes": 2, "min_nodes": 2,
+                                        "max_edges": 0, "depths": [0], "expr_depth": 2, "max_state": 2, "max_alg": 1, "max_in": 2,
+                                        "overrides": False, "collision": False}))
+            types = sorted(base["ntypes"])
+            has_in = [nt for nt in types if any(v[1] == "input" for o in base["ntypes"][nt]["ops"] for v in base["ops"][o]["vars"])]
+            if not has_in:
+                return {"spec": gen.uniquify_init(base), "cfg": {"vectorize": True, "dt": 0.01, "steps": 12, "matrix_sparseness": 1.0}, "shape": "none"}
+            tt = draw(st.sampled_from(has_in))
+            ts = [nt for nt in types if nt != tt][0]
+            n_s = draw(st.sampled_from([1, 1, 2, 3]))
+            n_t = draw(st.one_of(st.integers(2, 6), st.integers(10, 12)))
+            base["nodes"] = [[f"a{i}", ts] for i in range(n_s)] + [[f"b{i}", tt] for i in range(n_t)]
+            base["nodes"] = list(draw(st.permutations(base["nodes"])))
+            spec = gen.uniquify_init(base)
+            rm = RefModel(spec)
+            sr = sorted(k[len("a0/"):] for k in rm.state_paths if k.startswith("a0/"))
+            tg = sorted(k[len("b0/"):] for k, kd in rm.kind.items() if kd == "input" and k.startswith("b0/"))
+            if not sr or not tg:
+                return {"spec": spec, "cfg": {"vectorize": True, "dt": 0.01, "steps": 12, "matrix_sparseness": 1.0}, "shape": "none"}
+            sv, tv = draw(st.sampled_from(sr)), draw(st.sampled_from(tg))
+            m = draw(st.one_of(st.just(n_t), st.integers(2, n_t)))
+            targets = list(draw(st.permutations(list(range(n_t)))))[:m]
+            edges = [{"s": f"a{draw(st.integers(0, n_s - 1))}/{sv}", "t": f"b{j}/{tv}", "w": round(0.4 + 0.23 * k * (-1) ** k, 3),
+                      "d": None, "sp": None, "et": None, "scope": ""} for k, j in enumerate(targets)]
+            back = False
+            sr_b = sorted(k[len("b0/"):] for k in rm.state_paths if k.startswith("b0/"))
+            tg_a = sorted(k[len("a0/"):] for k, kd in rm.kind.items() if kd == "input" and k.startswith("a0/"))
+            if sr_b and tg_a and draw(st.booleans()):
+                back = True
+                sv2, tv2 = draw(st.sampled_from(sr_b)), draw(st.sampled_from(tg_a))
+                for k in range(draw(st.integers(1, min(n_t, 4)))):
+                    edges.append({"s": f"b{draw(st.integers(0, n_t - 1))}/{sv2}", "t": f"a{draw(st.integers(0, n_s - 1))}/{tv2}",
+                                  "w": round(-0.3 + 0.17 * k, 3), "d": None, "sp": None, "et": None, "scope": ""})
+            spec["edges"] = list(draw(st.permutations(edges)))
+            cfg = {"vectorize": True, "dt": 0.01, "steps": draw(st.integers(10, 16)),
+                   "matrix_sparseness": draw(st.sampled_from([1.0, 1.0, None, None, 0.5]))}
+            return {"spec": spec, "cfg": cfg, "shape": "cross", "n_s": n_s, "m": m, "back": back}
+        from ..finding_predicates import repair_case
+        return case().map(lambda c: repair_case(c, ctx))
+
+    def run(self, case, ctx):
+        res = super().run(case, ctx)
+        if case.get("shape") == "none":
+            res.rejected = "fewer than two node types / no state or input variable"
+        lab = set(res.labels)
+        if case.get("n_s") == 1:
+            lab.add("single_source_fan_out")
+        if case.get("m", 0) >= 10:
+            lab.add("targets>=10")
+        if case.get("back"):
+            lab.add("back_projection")
+        res.labels = sorted(lab)
         return res
 
 
@@ -255,4 +353,4 @@ class EdgeTemplateArm(TrajArm):
         return res
 
 
-ARMS = [TrajArm(), IndexedEdgesArm(), EdgeTemplateArm()]
+ARMS = [TrajArm(), IndexedEdgesArm(), CrossTypeArm(), EdgeTemplateArm()]
